@@ -89,12 +89,13 @@ _CACHE = {}
 _REL = None
 
 
-def _init_worker(universe, rel=None):
+def _init_worker(universe, rel=None, driver="builder"):
     global _UNIVERSE, _CACHE, _REL
     _UNIVERSE = universe
     _CACHE = {}
     _REL = rel
     import drive  # noqa  (imports awesomeyaml from /repo)
+    drive.DRIVER = driver
 
 
 def _docs_outcome(docs, safes):
@@ -155,9 +156,9 @@ def _replay_one(beh):
     return None
 
 
-def replay(universe, behaviours, nproc=16, rel=None):
+def replay(universe, behaviours, nproc=16, rel=None, driver="builder"):
     behaviours = sorted(behaviours, key=lambda b: b["h"])
-    with mp.Pool(nproc, initializer=_init_worker, initargs=(universe, rel)) as pool:
+    with mp.Pool(nproc, initializer=_init_worker, initargs=(universe, rel, driver)) as pool:
         res = pool.map(_replay_one, behaviours, chunksize=max(1, len(behaviours) // (nproc * 8) or 1))
     return [r for r in res if r is not None]
 
@@ -182,7 +183,7 @@ def _record_one(args):
         for rel in rels:
             outs = drive.stage_outcomes(rel["docs"], [True] * len(rel["docs"]))
             r2 = {k: v for k, v in rel.items()}
-            r2["outs"] = [o if "err" not in o else {"err": o["err"]} for o in outs]
+            r2["outs"] = [o if "err" not in o else drive.err_event(o) for o in outs]
             r2.setdefault("keys", [])
             r2.setdefault("i", 0)
             r2.setdefault("flag", "")
@@ -193,9 +194,9 @@ def _record_one(args):
     return t
 
 
-def record(histories, nproc=16, rel=None):
+def record(histories, nproc=16, rel=None, driver="builder"):
     """histories: list of (tid, docs, safes[, "all"|"random"]) -> trace dicts"""
-    with mp.Pool(nproc, initializer=_init_worker, initargs=([], rel)) as pool:
+    with mp.Pool(nproc, initializer=_init_worker, initargs=([], rel, driver)) as pool:
         return pool.map(_record_one, histories, chunksize=max(1, len(histories) // (nproc * 8) or 1))
 
 
